@@ -521,7 +521,7 @@ type mxjLine struct {
 
 const mxjProbeDoc = `<D-a x-Y="1" B=" &amp;">` + "\n" + `<e-f> 7 </e-f><e-f>&lt;v</e-f><g/><h k="q">true</h>` + "\n" + `</D-a>`
 const mxjXmppDoc = `<stream:stream to="x" A-b="&amp;"><a>1</a><B-c k="q"> 2 </B-c></stream:stream>`
-const mxjProbeSeqDoc = `<p:A z-z="1&amp;"><!--c--><B-c> v </B-c><d>&lt;7</d></p:A>`
+const mxjProbeSeqDoc = `<p:A z-z="1&amp;"><!--c--><B-c> v </B-c><d>&lt;7</d><_e>1</_e></p:A>`
 
 func mxjProbeMap() mxj.Map {
 	return mxj.Map{"doc": map[string]interface{}{"-x": "1", "@y": "2", "#text": "t<", "_text": "u",
@@ -674,7 +674,7 @@ func mxjOp(st mxjStep) (name, got, want string) {
 		if err := json.Unmarshal(st.R, &tv); err != nil {
 			panic(err)
 		}
-		nm, err := mxjQueryMap().NewMap(st.Arg)
+		nm, err := mxjQueryMap().NewMap(strings.Split(st.Arg, "+")...)
 		return fmt.Sprintf("NewMap(%q)", st.Arg), tagged.CanonGo(nm) + fmt.Sprint(err), tv.Norm() + "<nil>"
 	case "struct":
 		var exp []string
